@@ -172,7 +172,9 @@ class ModelMixin2:
 
         def make(s, k, v=v):
             return self.list_elem(v, s, k, node)
-        return IterSpec(le.lo, le.hi, None, make, self.describe(v, st), ordered=le.ordered)
+        sp = IterSpec(le.lo, le.hi, None, make, self.describe(v, st), ordered=le.ordered)
+        sp.listsym = v.sym
+        return sp
 
     def list_elem(self, v: Ref, st: State, k, node):
         """A fresh generic element of list *v* (for the k-th iteration)."""
@@ -195,7 +197,12 @@ class ModelMixin2:
             for i, tmpl in enumerate(le.items):
                 s = st if i == len(le.items) - 1 else st.copy()
                 owned = le.owned[i] if i < len(le.owned) else ()
-                outs.append((self.instantiate_template(tmpl, owned, s), s))
+                inst = self.instantiate_template(tmpl, owned, s)
+                if le.kind == 'accum' and isinstance(inst, Ref) and inst.kind == 'elem':
+                    fl = dict(s.mon.get('sym:fromlist') or {})
+                    fl[inst.sym] = v.sym
+                    s.mon['sym:fromlist'] = fl
+                outs.append((inst, s))
             if len(outs) > 1:
                 self.stats['forks'] += 1
             return outs
@@ -223,13 +230,21 @@ class ModelMixin2:
                 return tuple(mo(x) for x in o)
             return o
 
+        ts = st.mon.setdefault('textsyms', {})
+        tsmap = {}
+        for old, new in mapping.items():
+            if old in ts:
+                st.serial += 1
+                ts[new] = st.serial
+                tsmap[ts[old]] = ts[new]
+
         def mv(v):
             if isinstance(v, Ref):
                 return Ref(v.kind, mapping.get(v.sym, v.sym))
             if isinstance(v, TupleV):
                 return TupleV(tuple(mv(x) for x in v.items))
             if isinstance(v, StrV):
-                return StrV(mo(v.origin), mapping.get(v.sym, v.sym) if v.sym else 0)
+                return StrV(mo(v.origin), tsmap.get(v.sym, v.sym) if v.sym else 0)
             if isinstance(v, NoneV):
                 return NoneV(mo(v.origin))
             if isinstance(v, BoundV):
@@ -252,12 +267,6 @@ class ModelMixin2:
             else:
                 e2 = e
             st.heap[new] = e2
-        ts = st.mon.get('textsyms')
-        if ts:
-            for old, new in mapping.items():
-                if old in ts:
-                    st.serial += 1
-                    ts[new] = st.serial
         for f in list(st.facts):
             if any(isinstance(x, int) and x in mapping for x in f[1:]):
                 st.facts.add((f[0],) + tuple(mapping.get(x, x) if isinstance(x, int) else x for x in f[1:]))
@@ -319,9 +328,7 @@ class ModelMixin2:
             if sym > since:
                 out.append(sym)
             if isinstance(e, ElemE):
-                visit_o(e.origin)
-                if e.parent:
-                    visit(e.parent)
+                pass        # parents / origins of an element are shared structure, never owned by a template
             elif isinstance(e, IdxE):
                 if e.anchor:
                     visit(e.anchor)
@@ -382,6 +389,7 @@ class ModelMixin2:
             return outs
         sp = IterSpec(inner.lo, inner.hi, None, make, f'enumerate({src_descr})', ordered=inner.ordered)
         sp.adv = base_entry
+        sp.listsym = getattr(inner, 'listsym', None)
         return sp
 
     # -- enumerate(start=<index>) protocol: the counter stays a valid position only while every
@@ -792,11 +800,15 @@ class ModelMixin2:
             d = r.v if opn == 'Add' else -r.v
             if e.kind == 'end':
                 ns = e.slack + d
-                e2 = replace(e, slack=ns, descr='') if ns >= 0 else replace(e, kind='stale', why=f'end position moved by {d}', descr='')
+                e2 = replace(e, slack=max(min(ns, 3), -3), descr='')
             elif e.kind == 'const':
                 e2 = replace(e, const=e.const + d, descr=str(e.const + d))
+            elif e.kind == 'fresh' and d == 1 and e.delta == 0 and e.succ is not None:
+                # the position right after the node that was just inserted here
+                k, a, sl = e.succ
+                e2 = IdxE(k, e.parent, a, slack=sl, why=e.why)
             elif e.kind in ('fresh', 'slot'):
-                e2 = replace(e, delta=e.delta + d, descr='')
+                e2 = replace(e, delta=e.delta + d, descr='', succ=None)
             else:
                 e2 = e
             return [(Ref('idx', st.new(e2)), st)]
